@@ -76,9 +76,108 @@ structure Inv (text : Bool) (list : List Sym) (body : List Nat) (p0 : Nat) (c0 :
 /-- no latch to a non-ASCII mode is planned for the last four characters, and EDIFACT is not used -/
 def PlanOK (plan : List (Nat × EMode)) : Prop := ∀ e ∈ plan, (e.2 ≠ .ascii → e.1 = 0 ∨ e.1 > 4) ∧ e.2 ≠ .edifact
 
-/-- a pending latch is consistent with the mode -/
+/-- like `PlanOK`, but EDIFACT may be used for the final stretch of the message: the plan is a front
+part without EDIFACT followed by EDIFACT entries only, and the characters an EDIFACT entry covers
+(the last `e.1` characters of the message) are EDIFACT characters -/
+def PlanOKE (body : List Nat) (plan : List (Nat × EMode)) : Prop :=
+  ∃ front edis, plan = front ++ edis ∧
+    (∀ e ∈ front, (e.2 ≠ .ascii → e.1 = 0 ∨ e.1 > 4) ∧ e.2 ≠ .edifact) ∧
+    (∀ e ∈ edis, e.2 = .edifact ∧ (e.1 = 0 ∨ e.1 > 4) ∧ EdiChars (body.drop (body.length - e.1)))
+
+theorem planOKE_of_planOK (body : List Nat) {plan : List (Nat × EMode)} (h : PlanOK plan) : PlanOKE body plan :=
+  ⟨plan, [], by simp, h, by intro e he; simp at he⟩
+
+theorem planOKE_ascii (body : List Nat) : PlanOKE body [(0, .ascii)] :=
+  planOKE_of_planOK body (by intro e he; simp at he; subst he; simp)
+
+theorem planOKE_tail {body : List Nat} {a : Nat × EMode} {t : List (Nat × EMode)} (h : PlanOKE body (a :: t)) :
+    PlanOKE body t := by
+  obtain ⟨front, edis, h1, h2, h3⟩ := h
+  cases front with
+  | nil =>
+    cases edis with
+    | nil => simp at h1
+    | cons x xs =>
+      simp only [List.nil_append, List.cons.injEq] at h1
+      exact ⟨[], xs, by simp [h1.2], by intro e he; simp at he, fun e he => h3 e (by simp [he])⟩
+  | cons x xs =>
+    simp only [List.cons_append, List.cons.injEq] at h1
+    exact ⟨xs, edis, h1.2, fun e he => h2 e (by simp [he]), h3⟩
+
+theorem planOKE_mem {body : List Nat} {plan : List (Nat × EMode)} (h : PlanOKE body plan) (e : Nat × EMode) (he : e ∈ plan) :
+    (e.2 ≠ .ascii → e.1 = 0 ∨ e.1 > 4) ∧ (e.2 = .edifact → EdiChars (body.drop (body.length - e.1))) := by
+  obtain ⟨front, edis, h1, h2, h3⟩ := h
+  rw [h1] at he
+  rcases List.mem_append.mp he with he | he
+  · exact ⟨(h2 e he).1, fun hm => absurd hm (h2 e he).2⟩
+  · exact ⟨fun _ => (h3 e he).2.1, fun _ => (h3 e he).2.2⟩
+
+/-- once the plan has reached an EDIFACT entry, only EDIFACT entries follow -/
+theorem planOKE_head_edi {body : List Nat} {a : Nat × EMode} {t : List (Nat × EMode)} (h : PlanOKE body (a :: t))
+    (ha : a.2 = .edifact) : ∀ e ∈ t, e.2 = .edifact := by
+  obtain ⟨front, edis, h1, h2, h3⟩ := h
+  cases front with
+  | nil =>
+    simp only [List.nil_append] at h1
+    intro e he
+    exact (h3 e (by rw [← h1]; simp [he])).1
+  | cons x xs =>
+    simp only [List.cons_append, List.cons.injEq] at h1
+    exact absurd ha (by rw [h1.1]; exact (h2 x (by simp)).2)
+
+/-- an executable form of `PlanOKE`: split the plan at its first EDIFACT entry -/
+def planOKEb (body : List Nat) (plan : List (Nat × EMode)) : Bool :=
+  (plan.takeWhile (fun e => e.2 != .edifact)).all (fun e => e.2 == .ascii || e.1 == 0 || decide (e.1 > 4)) &&
+  (plan.dropWhile (fun e => e.2 != .edifact)).all (fun e => e.2 == .edifact && (e.1 == 0 || decide (e.1 > 4)) &&
+    (body.drop (body.length - e.1)).all (fun x => decide (32 ≤ x) && decide (x ≤ 94)))
+
+theorem mem_takeWhile_true {α : Type} (p : α → Bool) : ∀ (l : List α) (x : α), x ∈ l.takeWhile p → p x = true := by
+  intro l
+  induction l with
+  | nil => intro x hx; simp at hx
+  | cons a t ih =>
+    intro x hx
+    rw [List.takeWhile_cons] at hx
+    split at hx
+    · rcases List.mem_cons.mp hx with rfl | hx
+      · assumption
+      · exact ih x hx
+    · simp at hx
+
+theorem planOKE_of_check (body : List Nat) (plan : List (Nat × EMode)) (h : planOKEb body plan = true) : PlanOKE body plan := by
+  unfold planOKEb at h
+  rw [Bool.and_eq_true, List.all_eq_true, List.all_eq_true] at h
+  obtain ⟨h1, h2⟩ := h
+  refine ⟨plan.takeWhile (fun e => e.2 != .edifact), plan.dropWhile (fun e => e.2 != .edifact),
+    (List.takeWhile_append_dropWhile).symm, ?_, ?_⟩
+  · intro e he
+    have hp := mem_takeWhile_true _ _ e he
+    have h1e := h1 e he
+    simp only [Bool.or_eq_true, beq_iff_eq, decide_eq_true_eq] at h1e
+    simp only [bne_iff_ne, ne_eq] at hp
+    refine ⟨fun hne => ?_, hp⟩
+    rcases h1e with (h0 | h0) | h0
+    · exact absurd h0 hne
+    · exact Or.inl h0
+    · exact Or.inr h0
+  · intro e he
+    have h2e := h2 e he
+    simp only [Bool.and_eq_true, Bool.or_eq_true, beq_iff_eq, decide_eq_true_eq, List.all_eq_true] at h2e
+    obtain ⟨⟨a, b⟩, c⟩ := h2e
+    exact ⟨a, b, fun x hx => c x hx⟩
+
+/-- a pending latch is consistent with the mode; a pending EDIFACT latch means EDIFACT until the end:
+the remaining plan names EDIFACT only and the remaining characters are EDIFACT characters -/
 def Pending (s : St) : Prop :=
-  (s.mode = .ascii ∧ s.newMode = none) ∨ (∃ l, s.mode.latch = some l ∧ s.newMode = some l ∧ s.mode ≠ .edifact)
+  (s.mode = .ascii ∧ s.newMode = none) ∨
+  (∃ l, s.mode.latch = some l ∧ s.newMode = some l ∧
+    (s.mode = .edifact → (∀ e ∈ s.plan, e.2 = .edifact) ∧ EdiChars (s.input.drop (s.input.length - s.charsLeft))))
+
+theorem Pending.congr {s t : St} (h : Pending s) (h1 : t.mode = s.mode) (h2 : t.newMode = s.newMode) (h3 : t.plan = s.plan)
+    (h4 : t.input = s.input) (h5 : t.pos = s.pos) : Pending t := by
+  unfold Pending St.charsLeft at *
+  rw [h1, h2, h3, h4, h5]
+  exact h
 
 /-- what `c40::encode` leaves behind (see `C40RT.C40End`), relative to the start of the run -/
 structure End (text : Bool) (list : List Sym) (body : List Nat) (p0 : Nat) (c0 : List Nat) (s' : St) : Prop where
@@ -88,7 +187,7 @@ structure End (text : Bool) (list : List Sym) (body : List Nat) (p0 : Nat) (c0 :
     s'.cw = c0 ++ latchOf text :: packTriples V ++ (if un then [254] else []) ∧ s'.pos = p ∧ s'.input = body ∧
     s'.list = list ∧
     ((s'.mode = .ascii ∧ s'.plan = [(0, .ascii)] ∧ s'.newMode = none) ∨
-     (un = true ∧ s'.hasMore = true ∧ Pending s' ∧ PlanOK s'.plan) ∨ (p = body.length ∧ un = false)) ∧
+     (un = true ∧ s'.hasMore = true ∧ Pending s' ∧ PlanOKE body s'.plan) ∨ (p = body.length ∧ un = false)) ∧
     (un = false → asciiSize (body.drop p) ≤ 1 ∧
       ∃ S, firstBigEnough list (s'.cw.length + asciiSize (body.drop p)) = some S ∧
         dataCw S = s'.cw.length + asciiSize (body.drop p))
@@ -314,7 +413,7 @@ theorem handleEnd_more (text : Bool) (list : List Sym) (body : List Nat) (hb : B
     (hin : s.input = s0.input) (hpos : s.pos = s0.pos) (hcw : s.cw = s0.cw) (hli : s.list = s0.list)
     (hmore : s.hasMore = true)
     (hpend : ¬ (s.charsLeft = 2 ∧ twoDigitsComing s.rest = true) → Pending s)
-    (hlate : s.charsLeft = 2 → s.newMode = none) (hplS : PlanOK s.plan)
+    (hlate : s.charsLeft = 2 → s.newMode = none) (hplS : PlanOKE body s.plan)
     (h : c40HandleEnd s lastCh buf = .ok s') : End text list body p0 c0 s' := by
   have hW : Wb text body p0 s0.pos = (Wb text body p0 s0.pos).take (3 * m) ++ buf := by
     rw [inv.bufEq, List.take_append_drop]
@@ -440,9 +539,8 @@ theorem handleEnd_more (text : Bool) (list : List Sym) (body : List Nat) (hb : B
     refine ⟨V, n, s0.pos, true, stf, hVl, hVlt', hdec, inv.base, inv.le, by simp [St.push, hcw1],
       by simp [St.push, hp1, hpos], by simp [St.push, hi1, hin, inv.input], by simp [St.push, hl1, hli, inv.list],
       Or.inr (Or.inl ⟨rfl, by simp only [St.hasMore, St.push, hp1, hi1]; exact hmore, ?_, by simp only [St.push, hpl1]; exact hplS⟩), by simp⟩
-    unfold Pending at hp ⊢
-    simp only [St.push, hm1, hn1]
-    exact hp
+    exact hp.congr (by simp only [St.push, hm1]) (by simp only [St.push, hn1]) (by simp only [St.push, hpl1])
+      (by simp only [St.push, hi1]) (by simp only [St.push, hp1])
 
 theorem maybeSwitch_at (s s1 : St) (h : s.maybeSwitch = .ok (true, s1)) : (s.charsLeft, s1.mode) ∈ s.plan := by
   unfold St.maybeSwitch at h
@@ -466,18 +564,73 @@ theorem maybeSwitch_at (s s1 : St) (h : s.maybeSwitch = .ok (true, s1)) : (s.cha
       · rw [if_neg hc] at h
         simp at h
 
+theorem maybeSwitch_true (s s1 : St) (h : s.maybeSwitch = .ok (true, s1)) : s.plan = (s.charsLeft, s1.mode) :: s1.plan := by
+  unfold St.maybeSwitch at h
+  split at h
+  · cases h
+  · rename_i at_ m restPlan hp
+    simp only [] at h
+    split at h
+    · cases h
+    · by_cases hc : s.charsLeft > 0 ∧ s.charsLeft = at_
+      · rw [if_pos hc] at h
+        simp only [] at h
+        by_cases hne : m ≠ s.mode
+        · rw [if_pos hne] at h
+          simp only [Except.ok.injEq, Prod.mk.injEq, true_and] at h
+          subst h
+          rw [hp, hc.2]
+        · rw [if_neg hne] at h
+          simp at h
+      · rw [if_neg hc] at h
+        simp at h
+
+theorem maybeSwitch_plan (s s1 : St) (b : Bool) (h : s.maybeSwitch = .ok (b, s1)) :
+    s1.plan = s.plan ∨ ∃ e, s.plan = e :: s1.plan := by
+  unfold St.maybeSwitch at h
+  split at h
+  · cases h
+  · rename_i at_ m restPlan hp
+    simp only [] at h
+    split at h
+    · cases h
+    · by_cases hc : s.charsLeft > 0 ∧ s.charsLeft = at_
+      · rw [if_pos hc] at h
+        simp only [] at h
+        split at h
+        · simp only [Except.ok.injEq, Prod.mk.injEq] at h
+          obtain ⟨_, hs⟩ := h
+          subst hs
+          exact Or.inr ⟨_, hp⟩
+        · simp only [Except.ok.injEq, Prod.mk.injEq] at h
+          obtain ⟨_, hs⟩ := h
+          subst hs
+          exact Or.inr ⟨_, hp⟩
+      · rw [if_neg hc] at h
+        simp only [ne_eq, not_true_eq_false, ↓reduceIte, Except.ok.injEq, Prod.mk.injEq] at h
+        obtain ⟨_, hs⟩ := h
+        subst hs
+        exact Or.inl rfl
+
+theorem planOKE_maybeSwitch {body : List Nat} (s s1 : St) (b : Bool) (h : s.maybeSwitch = .ok (b, s1))
+    (hok : PlanOKE body s.plan) : PlanOKE body s1.plan := by
+  rcases maybeSwitch_plan s s1 b h with he | ⟨e, he⟩
+  · rw [he]; exact hok
+  · rw [he] at hok; exact planOKE_tail hok
+
 /-- after a planned switch the pending latch is consistent, and none is pending near the end -/
-theorem switched_ok (s s3 : St) (hnm : s.newMode = none) (hok : PlanOK s.plan) (h : s.maybeSwitch = .ok (true, s3)) :
-    Pending s3 ∧ (s3.charsLeft ≤ 4 → s3.newMode = none) ∧ PlanOK s3.plan := by
+theorem switched_ok (s s3 : St) (hnm : s.newMode = none) (hok : PlanOKE s.input s.plan) (h : s.maybeSwitch = .ok (true, s3)) :
+    Pending s3 ∧ (s3.charsLeft ≤ 4 → s3.newMode = none) ∧ PlanOKE s.input s3.plan := by
   obtain ⟨m1, m2, m3, m4, m5, m6⟩ := maybeSwitch_spec s s3 true h
   obtain ⟨t1, t2, t3, t4⟩ := m6 rfl
   have hat := maybeSwitch_at s s3 h
+  have hpl := maybeSwitch_true s s3 h
   have hcl3 : s3.charsLeft = s.charsLeft := by simp [St.charsLeft, m1.1, m2]
   have hclpos : 0 < s.charsLeft := by
     have := of_decide_eq_true t2
     simp only [St.charsLeft]; omega
   rw [hnm] at t4
-  refine ⟨?_, ?_, fun e he => hok e (m4 e he)⟩
+  refine ⟨?_, ?_, planOKE_maybeSwitch s s3 true h hok⟩
   · unfold Pending
     cases hl : s3.mode.latch with
     | none =>
@@ -489,7 +642,12 @@ theorem switched_ok (s s3 : St) (hnm : s.newMode = none) (hok : PlanOK s.plan) (
     | some l =>
       right
       rw [hl] at t4
-      exact ⟨l, rfl, t4, (hok _ hat).2⟩
+      refine ⟨l, rfl, t4, fun hm => ⟨?_, ?_⟩⟩
+      · rw [hpl] at hok
+        exact planOKE_head_edi hok hm
+      · have := (planOKE_mem hok _ hat).2 hm
+        rw [hcl3, m1.1]
+        exact this
   · intro h4
     cases hl : s3.mode.latch with
     | none => rw [hl] at t4; exact t4
@@ -497,13 +655,13 @@ theorem switched_ok (s s3 : St) (hnm : s.newMode = none) (hok : PlanOK s.plan) (
       exfalso
       have hne : s3.mode ≠ .ascii := by
         intro hm; rw [hm] at hl; simp [EMode.latch] at hl
-      rcases (hok _ hat).1 hne with h0 | h0
+      rcases (planOKE_mem hok _ hat).1 hne with h0 | h0
       · simp only [] at h0; omega
       · simp only [] at h0; omega
 
 theorem c40Loop_gen (text : Bool) (list : List Sym) (body : List Nat) (hb : ByteList body) (p0 : Nat) (c0 : List Nat) :
     ∀ (n f : Nat) (s : St) (buf : List Nat) (lastCh m : Nat) (s' : St), body.length - s.pos = n → n < f →
-      Inv text list body p0 c0 s buf lastCh m → PlanOK s.plan →
+      Inv text list body p0 c0 s buf lastCh m → PlanOKE body s.plan →
       c40Loop text f s buf lastCh = .ok s' → End text list body p0 c0 s' := by
   intro n
   induction n with
@@ -591,7 +749,7 @@ theorem c40Loop_gen (text : Bool) (list : List Sym) (body : List Nat) (hb : Byte
               simp [List.getD, List.getElem?_eq_getElem hlt]
           generalize hs2 : ({ { s with pos := s.pos + 1 } with
               cw := s.cw ++ packTriples ((buf ++ c40Vals text body[s.pos]).take (3 * k)) } : St) = s2 at h inv'
-          have hplan2 : PlanOK s2.plan := by rw [← hs2]; exact hplan
+          have hplan2 : PlanOKE body s2.plan := by rw [← hs2]; exact hplan
           cases hm : s2.maybeSwitch with
           | error e => rw [hm] at h; cases h
           | ok r =>
@@ -601,7 +759,8 @@ theorem c40Loop_gen (text : Bool) (list : List Sym) (body : List Nat) (hb : Byte
             cases bsw with
             | true =>
               simp only [] at h
-              obtain ⟨hP, hL, hPl3⟩ := switched_ok s2 s3 inv'.newMode hplan2 hm
+              obtain ⟨hP, hL, hPl3⟩ := switched_ok s2 s3 inv'.newMode (by rw [inv'.input]; exact hplan2) hm
+              rw [inv'.input] at hPl3
               obtain ⟨_, t2, _, _⟩ := m6 rfl
               have hmore3 : s3.hasMore = true := by simpa [St.hasMore, m1.1, m2] using t2
               exact handleEnd_more text list body hb p0 c0 s2 s3 s' _ body[s.pos] (m + k) inv' m1.1 m2 m3 m1.2 hmore3
@@ -614,7 +773,7 @@ theorem c40Loop_gen (text : Bool) (list : List Sym) (body : List Nat) (hb : Byte
                   by rw [m2]; exact inv'.base, by rw [m2]; exact inv'.le, by rw [m2]; exact inv'.m3,
                   by rw [m2]; exact inv'.bufEq, inv'.short, by rw [m2, m3]; exact inv'.cw, by rw [m2]; exact inv'.last⟩
               exact ih f s3 _ _ (m + k) s' (by rw [m2, ← hs2]; simp only []; omega) (by omega) inv3
-                (fun e he => hplan2 e (m4 e he)) h
+                (planOKE_maybeSwitch s2 s3 false hm hplan2) h
       have hrest1 : ({ s with pos := s.pos + 1 } : St).rest = body.drop (s.pos + 1) := by simp [St.rest, inv.input]
       split at h
       · rename_i d hr
